@@ -76,7 +76,8 @@ def run(ctx):
   if not quick:
     jobs += [("MC_%s.cfg" % n, dict(workers=3, timeout=1500)) for n, _ in fam]
     jobs += [("MC_%s.cfg" % n, dict(workers=4, timeout=2400)) for n in BIG_MC]
-  with concurrent.futures.ThreadPoolExecutor(max_workers=6) as ex:
+    jobs += [("PATHS_depth7.cfg", dict(workers=1, coverage=False, timeout=1500))]
+  with concurrent.futures.ThreadPoolExecutor(max_workers=4) as ex:
     results = list(ex.map(_tlc, jobs))
   res = dict(zip([j[0] for j in jobs], results))
   exports = {}
@@ -104,6 +105,17 @@ def run(ctx):
     params = dict(types=types, **VARIANTS[(k + ctx.seed) % len(VARIANTS)])
     st = c05_lib.replay(ctx, behs, params, "Trace_A.cfg" if types == ["A"] else "Trace.cfg")
     ctx.notes["replay_%s" % n] = dict(behaviours=len(behs), adapter=params, **st)
+  if not quick:
+    # every command sequence of length 7 over a small alphabet (the code may
+    # carry history that the abstract state does not distinguish)
+    r = res["PATHS_depth7.cfg"]
+    behs = r.tagged("H")
+    if len(behs) < 10000:
+      raise tlc.TLCError("only %d all-path behaviours exported" % len(behs))
+    ctx.add_model("Revent all paths to depth 7 (export)", r)
+    params = dict(types=["A"], **VARIANTS[(1 + ctx.seed) % len(VARIANTS)])
+    st = c05_lib.replay(ctx, behs, params, "Trace_A.cfg")
+    ctx.notes["replay_allpaths_depth7"] = dict(behaviours=len(behs), adapter=params, **st)
   # ---- 3. code -> spec
   ntr, length = (600, 50) if quick else (12000, 60)
   items = []
@@ -131,10 +143,19 @@ def run(ctx):
         continue
       rejected += 1
       ev = batch[t][matched]
+      it = items[bi * 3000 + t]
+      # replayable form: the recorded commands with the recorded observations
+      # as expectation; the rejected event expects a marker, so that
+      # `--replay` re-runs the commands and lets TLC judge the run as observed
+      beh = [dict(a=e["a"], args=e["args"], exp=e["obs"]) for e in batch[t][:matched]]
+      beh.append(dict(a=ev["a"], args=ev["args"], exp=dict(ev["obs"], k="REJECTED-BY-TLC")))
       c05_lib.report(ctx, c05_lib.trace_signature(ev),
-                     dict(trace=batch[t][:matched + 1], failing_step=matched,
-                      driver=items[bi * 3000 + t],
-                      note="TLC rejected the recorded trace at this event"))
+                     dict(adapter=c05_lib.ADAPTER,
+                          params=dict(types=it[2], hook=it[3], prios=it[4], decl=it[5],
+                                      arbiter="Trace.cfg"),
+                          behaviour=beh, failing_step=matched, observed=ev["obs"],
+                          expected="TLC (TraceRevent) rejected the recorded trace at this event",
+                          driver=list(it)))
   if bad is None and not any(not e["wf"] for t in traces for e in t):
     raise tlc.TLCError("no negative control could be built")
   ctx.traces += len(traces)
